@@ -267,6 +267,35 @@ def call(ex, st, fr, callee, last, args, argops, dest):
         if op == "rem":
             return IV(T.ite(neg, T.ite(bpos, T.add(r, b), T.sub(r, b)), r), ity)
         return IV(T.ite(neg, T.ite(bpos, T.sub(q, 1), T.add(q, 1)), q), ity)
+    if ity and re.search(r">::(checked|wrapping|saturating)_(add|sub)_unsigned$", c):
+        mode, op = re.search(r">::(\w+?)_(add|sub)_unsigned$", c).groups()
+        _use("core::num::<impl int>::%s_%s_unsigned" % (mode, op))
+        exv = (T.add if op == "add" else T.sub)(args[0].t, args[1].t)
+        inr = T.in_range(exv, ity)
+        if mode == "checked":
+            if isinstance(inr, bool):
+                return _some(IV(exv, ity)) if inr else _none()
+            return E._Alts([(inr, _some(IV(exv, ity))), (T.bnot(inr), _none())])
+        if mode == "wrapping":
+            return IV(ex.wrap(st, exv, ity), ity)
+        lo, hi = ty_range(ity)
+        return IV(T.ite(T.lt(exv, lo), lo, T.ite(T.lt(hi, exv), hi, exv)), ity)
+    if ity and re.search(r">::(checked_)?ilog2$", c):
+        checked = "checked_" in c
+        _use("core::num::<impl int>::ilog2 / checked_ilog2 (forks over the possible results)")
+        x = args[0].t
+        w = INT_TYPES[ity][1]
+        fail = (lambda: _none()) if checked else (lambda: _panic(ex, st, "argument of integer logarithm must be positive"))
+        ok = (lambda k: _some(IV(k, "u32"))) if checked else (lambda k: IV(k, "u32"))
+        if is_conc(x):
+            return fail() if x <= 0 else ok(int(x).bit_length() - 1)
+        _, hi = ty_range(ity)
+        alts = [(T.le(x, 0), fail())]
+        k = 0
+        while (1 << k) <= hi:
+            alts.append((T.band(T.le(1 << k, x), T.lt(x, 1 << (k + 1))) if (1 << (k + 1)) <= hi else T.le(1 << k, x), ok(k)))
+            k += 1
+        return _outcome_alts(ex, st, alts)
     if ity and c.endswith(">::checked_ilog10"):
         _use("core::num::<impl int>::checked_ilog10 (None for arguments <= 0, otherwise forks over the possible results)")
         x = args[0].t
@@ -764,6 +793,61 @@ def call(ex, st, fr, callee, last, args, argops, dest):
         return NotImplemented
     if re.match(r"^must_use::<", c) or re.match(r"^(std|core)::hint::must_use::<", c):
         return args[0]
+
+    # ---- iterator adaptors (rev, map) over ranges: lazily evaluated values, concrete bounds only -----------------
+    m = re.match(r"^<(.+) as Iterator>::(rev|map)::<.*>$|^<(.+) as Iterator>::(rev)$", c)
+    if m and isinstance(args[0], E.Agg) and (args[0].kind.startswith("struct:Range") or args[0].kind.startswith("iter:")):
+        which = m.group(2) or m.group(4)
+        _use("Iterator::%s over a range (lazy adaptor value)" % which)
+        if which == "rev":
+            return E.Agg("iter:Rev", (args[0],))
+        return E.Agg("iter:Map", (args[0], args[1]))
+    if re.match(r"^<.* as IntoIterator>::into_iter$", c) and isinstance(args[0], E.Agg) and args[0].kind.startswith("iter:"):
+        return args[0]
+    if re.match(r"^<.* as Iterator>::next$", c) and isinstance(args[0], E.RefV):
+        itv = ex.read_ref(st, args[0])
+        if isinstance(itv, E.Agg) and itv.kind.startswith("iter:"):
+            _use("Iterator::next on rev / map adaptors over a range with concrete bounds")
+
+            def step(v):
+                """(item or None, new iterator value); raises for anything not concrete"""
+                if v.kind == "struct:Range":
+                    a, b = v.fields[0], v.fields[1]
+                    if not (is_conc(a.t) and is_conc(b.t)):
+                        raise E.Unsupported("iterator adaptor over a range with symbolic bounds")
+                    if a.t < b.t:
+                        return a, E.Agg(v.kind, (IV(a.t + 1, a.ty), b))
+                    return None, v
+                if v.kind == "iter:Rev":
+                    r = v.fields[0]
+                    if r.kind != "struct:Range":
+                        raise E.Unsupported("rev over %s" % r.kind)
+                    a, b = r.fields[0], r.fields[1]
+                    if not (is_conc(a.t) and is_conc(b.t)):
+                        raise E.Unsupported("iterator adaptor over a range with symbolic bounds")
+                    if a.t < b.t:
+                        nb = IV(b.t - 1, b.ty)
+                        return nb, E.Agg("iter:Rev", (E.Agg(r.kind, (a, nb)),))
+                    return None, v
+                if v.kind == "iter:Map":
+                    item, inner = step(v.fields[0])
+                    if item is None:
+                        return None, E.Agg("iter:Map", (inner, v.fields[1]))
+                    clo_v = v.fields[1]
+                    clo = ex.prog.closures.get(clo_v.kind[8:]) if isinstance(clo_v, E.Agg) and clo_v.kind.startswith("closure:") else None
+                    if clo is None:
+                        raise E.Unsupported("map over a non-closure")
+                    box = ("tmp", "mapclo", st.next_uid)
+                    st.next_uid += 1
+                    st.heap[box] = clo_v
+                    outs = ex_call_local(ex, st, clo, [E.RefV(box=box), item], fr)
+                    if len(outs) != 1 or outs[0][2].kind != "return" or outs[0][0]:
+                        raise E.Unsupported("map closure with several outcomes")
+                    return outs[0][2].value, E.Agg("iter:Map", (inner, v.fields[1]))
+                raise E.Unsupported("iterator %s" % v.kind)
+            item, nv = step(itv)
+            ex.write_ref(st, args[0], nv)
+            return _none() if item is None else _some(item)
 
     # ---- ranges as iterators ---------------------------------------------------------------
     if re.match(r"^<(std::ops::|core::ops::)?Range(Inclusive)?<\w+> as IntoIterator>::into_iter$", c):
